@@ -54,8 +54,13 @@ def replay(pid, path):
 MODES = {"C20": "golden"}
 
 
-def feed(run, mode, nd, classify=None, sig_of=None, budget_ms=5000, key=None, env_extra=None):
+def feed(run, mode, nd, classify=None, sig_of=None, budget_ms=5000, key=None, env_extra=None, keep=None):
     """Replays every behaviour of `nd` through harness mode `mode`; reports disagreements."""
+    if keep:
+        recs = [r for r in read_records(nd) if keep(r)]
+        with open(nd, "w") as f:
+            for r in recs:
+                f.write(json.dumps(r) + "\n")
     recs = read_records(nd)
     res = run_vh(mode, nd, budget_ms=budget_ms, env_extra=env_extra)
     for i, (rec, r) in enumerate(zip(recs, res)):
@@ -103,12 +108,12 @@ def sig_ledger(rec, res, v):
     return kind
 
 
-def ledger_scenarios(run, scenarios, workers=8):
+def ledger_scenarios(run, scenarios, workers=8, mode="ledger", keep=None):
     for sc in scenarios:
         nd, n, st = tlc_gen("MCLedger.tla", "Ledger_%s.cfg" % sc, "%s-%s" % (run.pid, sc), workers=workers, timeout=1700)
         st["scenario"] = sc
         run.add_model(st)
-        feed(run, "ledger", nd, sig_of=sig_ledger)
+        feed(run, mode, nd, sig_of=sig_ledger, keep=keep)
 
 
 LEDGER_ASSUME = [
@@ -222,3 +227,74 @@ def ledger_traces(run, runs=None):
 
 
 MODES.update({"C01": "ledger", "C02": "ledger", "C03": "ledger"})
+
+
+@check("C04")
+def c04(run):
+    run.rule = ("script Dates of spec/mc/MCLedger.tla: three transactions, each dated 1..3 in ANY file order, optional declared "
+                "precision, inferred amounts, a fractional amount that rounds away; every (start, end) pair over dates 0..4 and "
+                "unbounded is queried; non-trivial = several distinct dates or non-chronological file order")
+    run.assumptions += LEDGER_ASSUME + ["the unbounded query is compared unrounded (that is what the whole-history report shows); every bounded range is compared after rounding to declared precision"]
+    nd, n, st = tlc_gen("MCLedger.tla", "Ledger_Dates.cfg" if run.tier == "quick" else "Ledger_DatesT.cfg", "C04-Dates", workers=8, timeout=1700)
+    run.add_model(st)
+    feed(run, "report", nd)
+    run.exhaustive = True
+
+
+MODES["C04"] = "report"
+
+
+@check("C09")
+def c09(run):
+    run.rule = ("price events of spec/mc/MCPrice.tla: all sequences of <=2 events over 3 pairs x 3 dates x 3 rates x {ledger, db} "
+                "(ABC2), 3 events over a reduced catalogue (ABC3), and the diamond A-B-D / A-C-D with every date assignment; every "
+                "(from, to, day) query over days 0..5; non-trivial = >=2 events, a tie between chains, or database and ledger prices mixed")
+    run.assumptions += ["rates are 2^a*5^b so products and reciprocals are exact in Decimal",
+                        "where several chains are equally ranked, or the staleness of a multi-step chain can be aggregated as maximum or as sum, any admissible rate is accepted",
+                        "ledger events are realised as cost (@), total (@@), lot price and implied exchange in rotation"]
+    scs = ["ABC2", "ABC3", "Diamond"]
+    for sc in scs:
+        nd, n, st = tlc_gen("MCPrice.tla", "Price_%s.cfg" % sc, "C09-%s" % sc, workers=8, timeout=1700)
+        st["scenario"] = sc
+        run.add_model(st)
+        feed(run, "price", nd)
+    if run.tier == "thorough":
+        nd, n, st = tlc_gen("MCPrice.tla", "Price_ABCD.cfg", "C09-ABCD", simulate={"num": 20000, "depth": 8}, seed=run.seed, timeout=1700)
+        st["scenario"] = "ABCD (simulation)"
+        run.add_model(st)
+        feed(run, "price", nd)
+    run.exhaustive = run.tier == "quick"
+
+
+@check("C12")
+def c12(run):
+    run.rule = ("script Alias of spec/mc/MCLedger.tla: account/commodity declarations with aliases (including conflicting ones) in every "
+                "position among two transactions that use canonical names and aliases in postings, amounts, costs and assertions; each "
+                "accepted behaviour is also run with every alias replaced by its canonical name (two-run product check)")
+    run.assumptions += LEDGER_ASSUME + ["an alias declared for two canonical names silently keeps the first (the property is silent)",
+                                        "`okane accounts` is outside the claim (it lists names without processing declarations)"]
+    # behaviours that reach the deferred-assertion shape through an alias belong to C02's recorded finding
+    ledger_scenarios(run, ["Alias"] if run.tier == "quick" else ["Alias", "AliasT"], mode="ledger-alias",
+                     keep=lambda r: not r["expect"].get("deferred"))
+    ledger_traces(run)
+    run.exhaustive = True
+
+
+MODES.update({"C09": "price", "C12": "ledger-alias"})
+
+
+@check("C10")
+def c10(run):
+    run.rule = ("script Conv of spec/mc/MCConvert.tla: dated ledger with costs, lot price, total cost and an implied exchange over "
+                "commodities X, Y, T, optional declared precision on T or X, crossed with four price-database contents; queries: targets "
+                "{T, X} x {historical, up-to-date at day 1/2/4} x six date ranges; non-trivial = every behaviour (all convert)")
+    run.assumptions += LEDGER_ASSUME + ["all amounts and rates are 2^a*5^b so conversion is exact",
+                                        "a target commodity that occurs nowhere is outside the claim",
+                                        "zero-valued entries are avoided (whether a zero amount needs a rate is not specified)"]
+    nd, n, st = tlc_gen("MCConvert.tla", "Convert_Conv.cfg" if run.tier == "quick" else "Convert_ConvT.cfg", "C10-Conv", workers=8, timeout=1700)
+    run.add_model(st)
+    feed(run, "conv", nd)
+    run.exhaustive = True
+
+
+MODES["C10"] = "conv"
